@@ -16,7 +16,7 @@ BOUNDED_PARTS = {
     "C06": ("grid", "frame"),
     "C09": ("dynamics", "placement", "frame", "objective", "pvals"),
     "C10": ("init",),
-    "C11": ("dynamics", "placement", "frame", "objective", "freetime"),
+    "C11": ("dynamics", "placement", "frame", "grid", "objective", "freetime"),
     "C14": ("dynamics", "placement", "frame", "objective", "scaling"),
 }
 
@@ -45,13 +45,17 @@ EXTRA = {}
 
 def c05_extra(tier):
     from . import c03
-    return [Task("C05/collocation-quadrature-weights", c03.native_collocation, kind="enumerated", bound=dict(degree="1..7", schemes=["radau", "legendre"], tolerance=1e-9))]
+    return [Task("C05/collocation-quadrature-weights", c03.native_collocation, kind="enumerated", replay=dict(harness="colloc_probe"), bound=dict(degree="1..7", schemes=["radau", "legendre"], tolerance=1e-9))]
 
 
 def tasks_for(prop, tier):
     out = []
     if prop == "C05":
         out += c05_extra(tier)
+    if prop == "C02":
+        from . import c03
+        out.append(Task("C02/collocation-polynomial-tables", lambda: c03.native_collocation(only=("nodes-are", "C-is", "D-is", "tables-independent")), kind="enumerated", replay=dict(harness="colloc_probe"),
+                        bound=dict(degree="1..7", schemes=["radau", "legendre"], tolerance=1e-9, construction_orders=2)))
     if prop in BOUNDED_PARTS:
         out += bounded_tasks(prop, tier)
     try:
